@@ -676,23 +676,40 @@ func c06Sat(p *Prog, rp *Report) {
 				m.Hooks[parse.String()] = func(m *Machine, st *State, call *ssa.CallCommon, args []Val) ([]Val, bool) {
 					parsed, _ = args[0].(string)
 					if parseOK {
-						return []Val{&TupleV{E: []Val{mkStruct(verT, map[string]Val{"Version": "N"}), nilV{}}}}, true
+						name := "N"
+						if parsed == "other-number" {
+							name = "M" // the number put in place for the second question
+						}
+						return []Val{&TupleV{E: []Val{mkStruct(verT, map[string]Val{"Version": name}), nilV{}}}}, true
 					}
 					return []Val{&TupleV{E: []Val{mkStruct(verT, map[string]Val{}), IfaceV{T: errT, V: "parse error"}}}}, true
 				}
 				q := q
 				m.Hooks[compare.String()] = func(m *Machine, st *State, call *ssa.CallCommon, args []Val) ([]Val, bool) {
+					second := false
 					for _, a := range args {
 						s, _ := a.(*StructV)
 						if s != nil {
 							v, _ := s.F[fieldIndex(structOf(verT), "Version")].(string)
 							order += v
+							if v == "M" {
+								second = true
+							}
 						}
+					}
+					if second {
+						return []Val{-q - 1}, true // the other number compares the other way round
 					}
 					return []Val{q}, true
 				}
 				st := freshState(m, "dependency", "version")
-				st.push(fn, []Val{mkStruct(vrT, map[string]Val{"Number": "the-number", "Operator": op}), mkStruct(verT, map[string]Val{"Version": "V"})}, nil)
+				var recvArg Val = mkStruct(vrT, map[string]Val{"Number": "the-number", "Operator": op})
+				recvID := -1
+				if _, ptrRecv := fn.Signature.Recv().Type().(*types.Pointer); ptrRecv {
+					recvID = st.alloc(vrT, recvArg)
+					recvArg = Ptr{Obj: recvID}
+				}
+				st.push(fn, []Val{recvArg, mkStruct(verT, map[string]Val{"Version": "V"})}, nil)
 				out := m.Run(st)
 				rows++
 				if len(out) != 1 || out[0].Status != stRet {
@@ -721,6 +738,40 @@ func c06Sat(p *Prog, rp *Report) {
 					problem = fmt.Sprintf("Compare is called with operands in the order %q, want V then N", order)
 				} else if parsed != "" && parsed != "the-number" {
 					problem = fmt.Sprintf("parses %q instead of the constraint's number", parsed)
+				}
+				if problem == "" && recvID >= 0 && parseOK {
+					// a pointer receiver can remember things: change the number in place and ask again
+					s2 := out[0]
+					if sv, ok := s2.Heap[recvID].V.(*StructV); ok {
+						sv.F[fieldIndex(structOf(vrT), "Number")] = "other-number"
+						order, parsed = "", ""
+						s2.Status = stRun
+						s2.Frames = nil
+						s2.push(fn, []Val{Ptr{Obj: recvID}, mkStruct(verT, map[string]Val{"Version": "V"})}, nil)
+						out2 := m.Run(s2)
+						rows++
+						if len(out2) != 1 || out2[0].Status != stRet {
+							r.undecided("dependency.VersionRelation.SatisfiedBy", pos, fmt.Sprintf("op %q, second call: %s", op, retDesc(out2)))
+							return
+						}
+						q2 := -q - 1
+						want2 := false
+						switch op {
+						case "<<":
+							want2 = q2 < 0
+						case "<=":
+							want2 = q2 <= 0
+						case "=":
+							want2 = q2 == 0
+						case ">=":
+							want2 = q2 >= 0
+						case ">>":
+							want2 = q2 > 0
+						}
+						if out2[0].Ret != want2 {
+							problem = fmt.Sprintf("after the constraint's number was changed in place a second call answers %v, want %v (the answer for the old number is remembered)", out2[0].Ret, want2)
+						}
+					}
 				}
 				if problem != "" {
 					bad++
